@@ -12,15 +12,21 @@
              'int64 arithmetic of datetime.go is written with explicit wrap-around (wrap64); Go / and % as '
              'Z.quot / Z.rem; time.Unix normalisation transcribed from the Go source',
              'the property oracle (same instant / same wall reading / exact Unix time) is evaluated on the '
-             'Go side with time.Date, Time.In, Time.ZoneBounds and math/big'],
+             'Go side with time.Date, Time.In, Time.ZoneBounds and math/big',
+             'schema-level stream: the four functions called through xml/json/csv schemas (custom_func '
+             'directly and through a template) with lenient (ignore_error) and strict members side by side '
+             'in both name orders on valid / empty / unparsable values; every member must behave as the '
+             'function called on its own (Model: member_outcome / record_outcome; theorem '
+             'unparsable_strict_member_fails_record); epoch strings are decimal only (zero-padded, signed, '
+             '0x/0b/0o/_ forms)'],
  'assumptions': ['minute_aligned: the instant read back from RFC3339 text equals the input instant only '
                  'where the zone offset is a whole number of minutes (known finding F23: sub-minute '
                  'local-mean-time offsets; rfc3339_same_instant_refuted). Outside that guard nothing is '
-                 'skipped: rfc3339_within_seconds_part proves, and the harness checks against Go\'s own '
-                 't.In(loc).Format(time.RFC3339), that the printed reading is exact, the printed offset is the '
-                 'zone offset with its seconds part cut off toward zero (sign, hours, minutes kept) and the '
-                 'instant denoted is off by that seconds part only (< 60 s); zones/eras with offsets strictly '
-                 'between -01:00 and 00:00 are taken from a scan of the installed zone database',
+                 "skipped: rfc3339_within_seconds_part proves, and the harness checks against Go's own "
+                 't.In(loc).Format(time.RFC3339), that the printed reading is exact, the printed offset is '
+                 'the zone offset with its seconds part cut off toward zero (sign, hours, minutes kept) and '
+                 'the instant denoted is off by that seconds part only (< 60 s); zones/eras with offsets '
+                 'strictly between -01:00 and 00:00 are taken from a scan of the installed zone database',
                  'wall reading of the result within years 1..9999 (known finding: year 10000 is printed with '
                  'five digits)',
                  'date_consistent: a zone-less reading bound to a zone keeps its reading except inside a '
